@@ -381,6 +381,33 @@ def c18_ctor(E, s):
 
 
 @scenario
+def c18_ctor_dense(E, s):
+    """TT(dense array, shape): the element count of the array must equal that of the requested shape (tensor form: prod N;
+    operator form: prod M * prod N); on return the object has the requested mode sizes"""
+    B = s.get('B', 3)
+    d = s['d']
+    src = [E.dim('s%d' % i, 1, s.get('Bsrc', B)) for i in range(s['nsrc'])]
+    N = [E.dim('n%d' % i, 1, B) for i in range(d)]
+    M = [E.dim('m%d' % i, 1, B) for i in range(d)] if s.get('ttm') else None
+    shape = [(m, n) for m, n in zip(M, N)] if M is not None else list(N)
+    a = E.stensor('dense', src)
+    if s.get('numpy'):
+        a = a.numpy()
+    ok, z, exc = attempt(E, lambda: E.tt.TT(a, shape, eps=1e-3))
+
+    def prod_(xs):
+        r = 1
+        for v in xs:
+            r = r * v
+        return r
+    compat = prod_(src) == prod_(N) * (prod_(M) if M is not None else 1)
+    if ok:
+        E.true('returned_only_if_compatible', compat)
+        E.true('requested_shape', all_eq(list(z.N), N) and (M is None or all_eq(list(z.M), M)))
+        E.true('full_shape', all_eq(list(z.full().shape), (M or []) + N))
+
+
+@scenario
 def c18_solver_guards(E, s):
     """AMEn entry points: incompatible operands (assumed by construction) must be rejected with the documented class"""
     B = s.get('B', 3)
